@@ -175,6 +175,11 @@ func (r *Report) Finish() int {
 		panic(err)
 	}
 	dir := filepath.Join(Root(), "evidence")
+	if r := os.Getenv("VERIF_REPO"); r != "" && r != "/repo" {
+		// a run against another copy of the repository (seeded changes, scratch worktrees)
+		// is not evidence about /repo: keep it apart
+		dir = filepath.Join(Root(), "evidence.alt")
+	}
 	os.MkdirAll(dir, 0o755)
 	if err := os.WriteFile(filepath.Join(dir, r.Prop+".json"), b, 0o644); err != nil {
 		panic(err)
